@@ -144,9 +144,10 @@ def run(ctx):
         if mism:
             ctx.note("%s: %d of %d edges gave an observation outside the model's admissible set; judging them with the monitor"
                      % (cfg, len(mism), len(edges)))
-            nev, dr = judge(ctx, b, cf, mism[:400], "edge mismatch " + cfg)
-            drift += dr
-            ctx.cov["traces_validated_against_impl"] += min(len(mism), 400)
+            for k in range(0, len(mism), 4000):
+                nev, dr = judge(ctx, b, cf, mism[k:k + 4000], "edge mismatch " + cfg)
+                drift += dr
+            ctx.cov["traces_validated_against_impl"] += len(mism)
 
     # random longer histories over the full alphabet, judged by TLC
     rng = random.Random(ctx.seed * 7919 + 41)
